@@ -9,4 +9,5 @@ CONSTANTS
   Small = FALSE
   Avoid = FALSE
   SimK = 1
+  AccW = TRUE
   Acts = {"dset", "oset", "rebind", "ddel", "batch", "lset", "ldel", "slice", "lins", "inplace", "ctor"}
